@@ -299,6 +299,8 @@ struct Outcome {
     queries: u64,
     checks: u64,
     cases: Vec<(String, bool)>,
+    /// frame ids some earlier check point saw WITH an entry in the committing handle's sketch track
+    ever_sketched: BTreeSet<u64>,
 }
 
 struct Ctx<'a> { drv: Option<&'a mut Driver>, thorough: bool, verbose: bool, no_rv: bool }
@@ -562,6 +564,16 @@ fn check(world: &mut World, ctx: &mut Ctx, out: &mut Outcome, i: usize, rt: bool
                     if !l.no_sketch && ca != cb {
                         let ids_live: Vec<u64> = live_side.sketch.iter().map(|e| e.id).collect();
                         let ids_oth: Vec<u64> = oside.sketch.iter().map(|e| e.id).collect();
+                        // the recorded finding is about frames that NEVER had a sketch (skip-index commits, insert_sketch,
+                        // blank text).  A frame that an earlier check point saw with a sketch and that has none now LOST it:
+                        // no recorded cause does that (seed C28-1 dropped the sketch of deleted / superseded frames, which
+                        // the renumbering on load then turns into wrong candidates) — reported as a violation of its own
+                        let lost: Vec<u64> = out.ever_sketched.iter().copied().filter(|id| !ids_live.contains(id)).collect();
+                        if !lost.is_empty() {
+                            return Some(Fail::Oracle(format!("lexical-results-differ-after-{name}-sketch-entry-dropped"),
+                                format!("act {i}: frames {lost:?} had a sketch-track entry at an earlier commit and have none now; the persisted track stores no frame ids, so after {name} the entries are numbered {:?} (live: {:?}); pre-filter candidates {:?} vs {:?}; {what_tail}", ids_oth, ids_live, ca, cb),
+                                false));
+                        }
                         return Some(Fail::Oracle("lexical-results-differ-after-reopen-via-sketch-track".into(),
                             format!("act {i}: sketch track frame ids {:?} on the live handle, {:?} after {name}; pre-filter candidates {:?} vs {:?}; {what_tail}", ids_live, ids_oth, ca, cb),
                             predicted[k]));
@@ -574,6 +586,7 @@ fn check(world: &mut World, ctx: &mut Ctx, out: &mut Outcome, i: usize, rt: bool
             }
         }
     }
+    out.ever_sketched.extend(live_side.sketch.iter().map(|e| e.id));
     model_fail
 }
 
